@@ -312,7 +312,7 @@ def grid(col, pp, nmax):
         col.enumerated += 1
 
 
-PROFILE = {'weights': {'transfer': 6, 'container': 3, 'plate': 1, 'remove': 1, 'fill_to': 3, 'slice': 1,
+PROFILE = {'weights': {'transfer': 6, 'container': 3, 'plate': 1, 'remove': 2, 'fill_to': 3, 'slice': 1,
                        'create_solution': 1, 'dilute': 1, 'create_solution_from': 1},
            'q_modes': ['frac'] * 5 + ['over', 'over', 'whole', 'zero', 'neg'], 'self_transfer': False,
            'ctor_faults': True}
